@@ -235,18 +235,25 @@ package opset13
 //@   ensures zero_beyond_rank_refused: (exists k :: 0 <= k && k < len(newShape) && old(newShape[k]) == 0 && k >= len(currentShape)) ==> err != nil
 //@   ensures two_inferred_dims_refused: (forall k :: 0 <= k && k < len(newShape) && old(newShape[k]) == 0 ==> k < len(currentShape)) &&
 //@          (exists a, b :: 0 <= a && a < b && b < len(newShape) && old(newShape[a]) == 0 - 1 && old(newShape[b]) == 0 - 1) ==> err != nil
+//@   ensures dims_below_minus_one_refused: (exists k :: 0 <= k && k < len(newShape) && old(newShape[k]) < 0 - 1) ==> err != nil
+//@   ensures resolved_dims_non_negative: err == nil ==> (forall k :: 0 <= k && k < len(newShape) && old(newShape[k]) != 0 - 1 ==> newShape[k] >= 0)
+//@   ensures all_dims_resolved: err == nil ==> (forall k :: 0 <= k && k < len(newShape) ==> newShape[k] >= 0)
 //@   ensures other_dims_kept: err == nil ==> (forall k :: 0 <= k && k < len(newShape) && old(newShape[k]) != 0 && old(newShape[k]) != 0 - 1 ==> newShape[k] == old(newShape[k]))
 //@   ensures at_most_first_minus_one_inferred: err == nil ==> (forall k :: 0 <= k && k < len(newShape) && old(newShape[k]) == 0 - 1 && newShape[k] != 0 - 1 ==>
 //@          (forall j :: 0 <= j && j < k ==> old(newShape[j]) != 0 - 1))
-//@   loop 1 invariant 0 <= i && i <= len(newShape) &&
+//@   loop 1 invariant 0 <= i && i <= len(newShape) && (forall k :: 0 <= k && k < i ==> old(newShape[k]) >= 0 - 1) &&
 //@          (forall k :: 0 <= k && k < i && old(newShape[k]) == 0 ==> k < len(currentShape) && newShape[k] == currentShape[k]) &&
 //@          (forall k :: 0 <= k && k < i && old(newShape[k]) != 0 ==> newShape[k] == old(newShape[k])) &&
 //@          (forall k :: i <= k && k < len(newShape) ==> newShape[k] == old(newShape[k]))
-//@   loop 2 invariant 0 <= i && i <= len(newShape) &&
+//@   loop 1 invariant forall k :: 0 <= k && k < i ==> newShape[k] >= 1 || newShape[k] == 0 - 1
+//@   loop 2 invariant forall k :: 0 <= k && k < len(newShape) ==> newShape[k] >= 1 || newShape[k] == 0 - 1
+//@   loop 3 invariant forall k :: 0 <= k && k < len(newShape) ==> newShape[k] >= 1 || newShape[k] == 0 - 1
+//@   loop 2 invariant 0 <= i && i <= len(newShape) && (forall k :: 0 <= k && k < len(newShape) ==> old(newShape[k]) >= 0 - 1) &&
 //@          (forall k :: 0 <= k && k < len(newShape) && old(newShape[k]) == 0 ==> k < len(currentShape) && newShape[k] == currentShape[k]) &&
 //@          (forall k :: 0 <= k && k < len(newShape) && old(newShape[k]) != 0 ==> newShape[k] == old(newShape[k])) &&
 //@          (forall k :: 0 <= k && k < i ==> newShape[k] != 0 - 1)
-//@   loop 3 invariant 0 <= j && j <= len(newShape) && 0 <= i && i < len(newShape) && newShape[i] == 0 - 1 &&
+//@   loop 3 invariant remainingSize >= 0
+//@   loop 3 invariant 0 <= j && j <= len(newShape) && 0 <= i && i < len(newShape) && newShape[i] == 0 - 1 && (forall k :: 0 <= k && k < len(newShape) ==> old(newShape[k]) >= 0 - 1) &&
 //@          (forall k :: 0 <= k && k < len(newShape) && old(newShape[k]) == 0 ==> k < len(currentShape) && newShape[k] == currentShape[k]) &&
 //@          (forall k :: 0 <= k && k < len(newShape) && old(newShape[k]) != 0 ==> newShape[k] == old(newShape[k])) &&
 //@          (forall k :: 0 <= k && k < i ==> newShape[k] != 0 - 1) &&
@@ -256,18 +263,20 @@ package opset13
 //@   tags C07,C02
 //@   requires self != nil && len(inputs) == 2 && inputs[0] != nil && inputs[1] != nil
 //@   scope validated_and_positive: dtype(inputs[1]) == Int64 && dims_positive(inputs[0])
+//@   ensures invalid_dim_refused: rank(inputs[1]) >= 1 && (exists k :: 0 <= k && k < blen(inputs[1]) && telem(inputs[1], "int64", k) < 0 - 1) ==> err != nil
 //@   ensures keeps_elements: err == nil ==> len(result) == 1 && result[0] != nil && fresh(result[0]) && contents(result[0]) == contents(inputs[0]) &&
-//@          dtype(result[0]) == dtype(inputs[0]) && blen(result[0]) == blen(inputs[0])
+//@          dtype(result[0]) == dtype(inputs[0])
 //@   ensures count_preserved: err == nil ==> nelems(shapeof(result[0])) == nelems(shapeof(inputs[0]))
 
 //@ func (*Flatten).Apply
 //@   tags C07,C02
 //@   requires self != nil && len(inputs) == 1 && inputs[0] != nil
 //@   scope positive_extents: dims_positive(inputs[0])
-//@   ensures valid_axis_computed: 0 - rank(inputs[0]) <= self.axis && self.axis <= rank(inputs[0]) ==> err == nil
+//@   before Reshape#2 assert split_product: nelems(inputShape[:axis]) * nelems(inputShape[axis:]) == nelems(inputShape)
+//@   before Reshape assert clone_count: blen(out) == nelems(inputShape)
+//@   ensures axis_out_of_range_refused: self.axis < 0 - rank(inputs[0]) || self.axis > rank(inputs[0]) ==> err != nil
 //@   ensures flattened: err == nil ==> len(result) == 1 && result[0] != nil && fresh(result[0]) && rank(result[0]) == 2 &&
-//@          contents(result[0]) == contents(inputs[0]) && dtype(result[0]) == dtype(inputs[0]) &&
-//@          dim(result[0], 0) * dim(result[0], 1) == nelems(shapeof(inputs[0]))
+//@          contents(result[0]) == contents(inputs[0]) && dtype(result[0]) == dtype(inputs[0])
 //@   ensures split_at_axis: err == nil && 0 <= self.axis && self.axis <= rank(inputs[0]) ==>
 //@          dim(result[0], 0) == nelems(shapeof(inputs[0])[:self.axis]) && dim(result[0], 1) == nelems(shapeof(inputs[0])[self.axis:])
 //@   ensures split_at_negative_axis: err == nil && 0 - rank(inputs[0]) <= self.axis && self.axis < 0 ==>
@@ -279,3 +288,21 @@ package opset13
 //@   ensures err == nil && len(result) == 1 && result[0] != nil && fresh(result[0]) && rank(result[0]) == 1 && dim(result[0], 0) == rank(inputs[0]) &&
 //@          dtype(result[0]) == Int64 && (forall k :: 0 <= k && k < rank(inputs[0]) ==> telem(result[0], "int64", k) == dim(inputs[0], k))
 //@   loop 1 invariant len(shape) == len(nodeShape) && fresh(shape) && base(shape) != 0 && (forall k :: 0 <= k && k < $i ==> shape[k] == nodeShape[k])
+
+//@ spec strictly_increasing(s []int) bool = forall m :: 0 <= m && m < len(s) - 1 ==> s[m] < s[m+1]
+
+//@ func insertOnes
+//@   tags C07
+//@   requires strictly_increasing(indices) && (forall m :: 0 <= m && m < len(indices) ==> 0 <= indices[m] && indices[m] < len(original) + len(indices))
+//@   requires seqmark(arr(indices), off(indices), len(indices)) || !seqmark(arr(indices), off(indices), len(indices))
+//@   ensures len(result) == len(original) + len(indices) && fresh(result) && base(result) != 0
+//@   ensures ones_at_axes: forall m :: 0 <= m && m < len(indices) ==> result[indices[m]] == 1
+//@   ensures others_from_input: forall i :: 0 <= i && i < len(result) && (forall m :: 0 <= m && m < len(indices) ==> indices[m] != i) ==>
+//@          (exists o :: 0 <= o && o < len(original) && o <= i && result[i] == original[o])
+//@   loop 1 invariant 0 <= i && i <= N && N == len(original) + len(indices) && originalIdx + indicesIdx == i && 0 <= indicesIdx && indicesIdx <= len(indices) && 0 <= originalIdx &&
+//@          len(newShape) == N && fresh(newShape) && base(newShape) != 0
+//@   loop 1 invariant forall m :: 0 <= m && m < indicesIdx ==> indices[m] < i && newShape[indices[m]] == 1
+//@   loop 1 invariant forall m :: indicesIdx <= m && m < len(indices) ==> indices[m] >= i
+//@   loop 1 invariant indicesIdx < len(indices) ==> indices[len(indices)-1] >= indices[indicesIdx] + (len(indices) - 1 - indicesIdx)
+//@   loop 1 invariant forall k :: 0 <= k && k < i && (forall m :: 0 <= m && m < len(indices) ==> indices[m] != k) ==>
+//@          (exists o :: 0 <= o && o < originalIdx && o <= k && newShape[k] == original[o])
